@@ -516,6 +516,10 @@ type c19Field struct {
 var c19Unmarshaler = reflect.TypeOf((*json.Unmarshaler)(nil)).Elem()
 
 func c19KindOf(t reflect.Type) string {
+	if t == reflect.TypeOf(hnsw.Duration(0)) {
+		// documented JSON forms: a duration string ("90m") or a number of nanoseconds
+		return "duration"
+	}
 	if t.Implements(c19Unmarshaler) || reflect.PointerTo(t).Implements(c19Unmarshaler) {
 		return "free"
 	}
